@@ -111,6 +111,88 @@ func c12ReplacedRun(run *vfRun, idx int) {
 	}
 }
 
+// c12ChurnRun: consumers that come and go. Every stream that has ended — cancelled while idle between two beacons,
+// cancelled while parked in a Send, or ended by a failing Send — must leave nothing registered behind: the callback
+// table (one worker goroutine and one queue per entry) must shrink back to the streams that are still open.
+func c12ChurnRun(run *vfRun, idx int) {
+	rng := vfNewRng(vfCaseSeed(vfSeed(), "C12c", idx))
+	backend := []string{"bolt-trimmed", "memdb", "bolt-untrimmed"}[idx%3]
+	chained := rng.Bool()
+	st, err := vfsNewStack(backend, chained, 2000, uint64(rng.Range(5, 40)))
+	if err != nil {
+		run.Inconclusive(err.Error())
+		return
+	}
+	defer st.Close()
+	cs, ok := st.cb.(*callbackStore)
+	if !ok {
+		run.Inconclusive("not a callbackStore")
+		return
+	}
+	registered := func() int {
+		cs.RLock()
+		defer cs.RUnlock()
+		return len(cs.callbacks)
+	}
+	keeper := vfsNewConsumer(st.head, 0) // one stream stays
+	defer keeper.cancel()
+	keeper.start(st)
+	if !waitRegistered(st, keeper) {
+		run.Inconclusive("keeper never registered")
+		return
+	}
+	n := rng.Range(6, 14)
+	how := map[string]int{}
+	for i := 0; i < n; i++ {
+		mode := []string{"idle", "parked-in-send", "idle"}[rng.Intn(3)]
+		gateAt := 0
+		if mode == "parked-in-send" {
+			gateAt = 2 // first live Send
+		}
+		c := vfsNewConsumer(st.head, gateAt)
+		c.start(st)
+		if !waitRegistered(st, c) {
+			c.cancel()
+			run.Inconclusive("churning consumer never registered")
+			return
+		}
+		if mode == "parked-in-send" {
+			if _, done := waitErr(appendN(st, 1), 5*time.Second); !done {
+				c.cancel()
+				run.Inconclusive("append did not return")
+				return
+			}
+			select {
+			case <-c.atGate:
+			case <-time.After(3 * time.Second):
+			}
+		}
+		c.cancel() // the client goes away
+		how[mode]++
+		if rng.Chance(50) {
+			_, _ = waitErr(appendN(st, 1), 5*time.Second)
+		}
+	}
+	run.Count("consumers_that_came_and_left", int64(n))
+	// positive signal: the table is back to the one stream that is still open (bounded wait, then a few more beacons
+	// so that callbacks which only notice the cancellation when they are called get their chance)
+	for i := 0; i < 300 && registered() > 1; i++ {
+		time.Sleep(10 * time.Millisecond)
+	}
+	if registered() > 1 {
+		_, _ = waitErr(appendN(st, 3), 5*time.Second)
+		for i := 0; i < 200 && registered() > 1; i++ {
+			time.Sleep(10 * time.Millisecond)
+		}
+	}
+	if left := registered(); left > 1 {
+		run.Violation("C12/callback-left-registered-after-its-consumer-disconnected",
+			fmt.Sprintf("%d consumers came and left (%v), 1 stream is still open, but %d callbacks (each with a worker goroutine and a queue of %d) are still registered after 3 more beacons", n, how, left, CallbackWorkerQueue),
+			map[string]any{"case_index": idx, "backend": backend, "chained": chained})
+	}
+	run.Eval(fmt.Sprintf("churn/%s/%v/%d/%v", backend, chained, n, how))
+}
+
 func TestVF_C12_Replaced(t *testing.T) {
 	vfsInstallHook()
 	run := vfNewRun("C12", "streams-stall-replaced")
@@ -129,6 +211,9 @@ func TestVF_C12_Replaced(t *testing.T) {
 			defer wg.Done()
 			defer func() { <-sem }()
 			c12ReplacedRun(run, idx)
+			if idx%3 == 0 {
+				c12ChurnRun(run, idx/3)
+			}
 		}(idx)
 	}
 	wg.Wait()
